@@ -8,19 +8,26 @@ invariant then only supplies its `Spec`.
 -/
 namespace Circus.Core
 
-/-- writers that touch neither the exclusive slot, nor top-level futures, nor the directory -/
-structure Leaf (I : State → Prop) : Prop where
+/-- the writers kernel wrappers use -/
+structure LeafK (I : State → Prop) : Prop where
   emit : ∀ o, Pres I (emit o)
   setK : ∀ k, Pres I (setK k)
-  setStatus : ∀ u st, Pres I (setStatus u st)
-  trySetNp : ∀ u n, Pres I (trySetNp u n)
-  spawnAdopt : ∀ u w, Pres I (spawnAdopt u w)
+
+/-- the writers the synchronous watcher functions use (no suspension, no spawn) -/
+structure LeafW (I : State → Prop) : Prop extends LeafK I where
   popPid : ∀ u p, Pres I (popPid u p)
   bumpHook : ∀ u h i, Pres I (bumpHook u h i)
-  setWOpt : ∀ u c, Pres I (setWOpt u c)
   setObjStopping : ∀ p b, Pres I (setObjStopping p b)
   setRc : ∀ p rc, Pres I (setRc p rc)
   markBlocked : Pres I markBlocked
+
+/-- writers that touch neither the exclusive slot, nor top-level futures, nor the directory -/
+structure Leaf (I : State → Prop) : Prop extends LeafW I where
+  emitRep : ∀ c i a b d, Pres I (emitRep c i a b d)
+  setStatus : ∀ u st, Pres I (setStatus u st)
+  trySetNp : ∀ u n, Pres I (trySetNp u n)
+  spawnAdopt : ∀ u w, Pres I (spawnAdopt u w)
+  setWOpt : ∀ u c, Pres I (setWOpt u c)
   freshId : Pres I freshId
   pushFrame : ∀ f, Pres I (pushFrame f)
   removeFrame : ∀ f, Pres I (removeFrame f)
@@ -47,101 +54,103 @@ structure Spec (I : State → Prop) : Prop extends Leaf I where
   syncCo : (∀ n t, Pres I (exec n t)) → ∀ name c, Pres I (syncCoroutine name c [])
   syncSetOpt : ∀ u key val len, Pres I (syncPlain "watcher_set_opt" (setOptBody u key val len))
   syncAdd : ∀ props, Pres I (syncPlain "arbiter_add_watcher" (addCore props))
-  settleStep : (∀ n t, Pres I (exec n t)) → Pres I sigQuit → ∀ r, Pres I (settleStep r)
+  settleStep : (∀ n t, Pres I (exec n t)) → Pres I sigQuit → Pres I settleStep
 
 attribute [aesop safe apply (rule_sets := [Pres])] Pres.pure Pres.getS Pres.getK Pres.getA Pres.getW Pres.getO Pres.nowMs
 attribute [aesop safe apply (rule_sets := [Pres])] Pres.bind Pres.ite Pres.for_in
-attribute [aesop safe apply (rule_sets := [Pres])] Leaf.emit Leaf.setK Leaf.setStatus Leaf.trySetNp Leaf.spawnAdopt Leaf.popPid
-  Leaf.bumpHook Leaf.setWOpt Leaf.setObjStopping Leaf.setRc Leaf.markBlocked Leaf.freshId Leaf.pushFrame
+attribute [aesop safe apply (rule_sets := [Pres])] LeafK.emit LeafK.setK Leaf.setStatus Leaf.trySetNp Leaf.spawnAdopt LeafW.popPid
+  LeafW.bumpHook Leaf.setWOpt LeafW.setObjStopping LeafW.setRc LeafW.markBlocked Leaf.emitRep Leaf.freshId Leaf.pushFrame
   Leaf.removeFrame Leaf.setFrameK Leaf.armFrame Leaf.pushSleeper Leaf.armTop Leaf.setClosed Leaf.setStopping
   Leaf.setRestarting Leaf.setLoopStop Leaf.clearDone Leaf.unregister Leaf.registerNew Leaf.fireSleeper
   Leaf.enqueueResume Leaf.enqueueCallback
 attribute [aesop safe apply (rule_sets := [Pres])] Spec.deliverTop Spec.syncSetOpt Spec.syncAdd
 
-macro "pres" : tactic => `(tactic| aesop (rule_sets := [Pres]) (config := { terminal := true, useDefaultSimpSet := false, useSimpAll := false }))
+attribute [aesop safe apply (rule_sets := [Pres])] LeafW.toLeafK Leaf.toLeafW
+
+macro "pres" : tactic => `(tactic| aesop (rule_sets := [Pres]) (config := { terminal := true, useDefaultSimpSet := false, useSimpAll := false, maxRuleApplications := 3000 }))
 
 section
 variable {I : State → Prop}
 
 /-! ### kernel wrappers -/
 @[aesop safe apply (rule_sets := [Pres])]
-theorem kKill_pres (L : Leaf I) (pid sig : Nat) (via : String) : Pres I (kKill pid sig via) := by
+theorem kKill_pres (L : LeafK I) (pid sig : Nat) (via : String) : Pres I (kKill pid sig via) := by
   unfold kKill; pres
 @[aesop safe apply (rule_sets := [Pres])]
-theorem kWaitpid_pres (L : Leaf I) (pid : Option Nat) : Pres I (kWaitpid pid) := by
+theorem kWaitpid_pres (L : LeafK I) (pid : Option Nat) : Pres I (kWaitpid pid) := by
   unfold kWaitpid; pres
 @[aesop safe apply (rule_sets := [Pres])]
-theorem kStateOf_pres (L : Leaf I) (pid : Nat) : Pres I (kStateOf pid) := by
+theorem kStateOf_pres (L : LeafK I) (pid : Nat) : Pres I (kStateOf pid) := by
   unfold kStateOf; pres
 @[aesop safe apply (rule_sets := [Pres])]
-theorem kChildren_pres (L : Leaf I) (pid : Nat) (r : Bool) : Pres I (kChildren pid r) := by
+theorem kChildren_pres (L : LeafK I) (pid : Nat) (r : Bool) : Pres I (kChildren pid r) := by
   unfold kChildren; pres
 @[aesop safe apply (rule_sets := [Pres])]
-theorem kSpawn_pres (L : Leaf I) : Pres I kSpawn := by
+theorem kSpawn_pres (L : LeafK I) : Pres I kSpawn := by
   unfold kSpawn; pres
 @[aesop safe apply (rule_sets := [Pres])]
-theorem kSleep_pres (L : Leaf I) (ms : Nat) : Pres I (kSleep ms) := by
+theorem kSleep_pres (L : LeafK I) (ms : Nat) : Pres I (kSleep ms) := by
   unfold kSleep; pres
 
 /-! ### watcher.py, synchronous part -/
 @[aesop safe apply (rule_sets := [Pres])]
-theorem notify_pres (L : Leaf I) (u : Nat) (t : String) (p : Option Nat) (x : String) : Pres I (notify u t p x) := by
+theorem notify_pres (L : LeafW I) (u : Nat) (t : String) (p : Option Nat) (x : String) : Pres I (notify u t p x) := by
   unfold notify; pres
 @[aesop safe apply (rule_sets := [Pres])]
-theorem callHook_pres (L : Leaf I) (u : Nat) (h : String) : Pres I (callHook u h) := by
+theorem callHook_pres (L : LeafW I) (u : Nat) (h : String) : Pres I (callHook u h) := by
   unfold callHook; pres
 @[aesop safe apply (rule_sets := [Pres])]
-theorem procStatus_pres (L : Leaf I) (pid : Nat) : Pres I (procStatus pid) := by
+theorem procStatus_pres (L : LeafW I) (pid : Nat) : Pres I (procStatus pid) := by
   unfold procStatus; pres
 @[aesop safe apply (rule_sets := [Pres])]
-theorem isAlive_pres (L : Leaf I) (pid : Nat) : Pres I (isAlive pid) := by
+theorem isAlive_pres (L : LeafW I) (pid : Nat) : Pres I (isAlive pid) := by
   unfold isAlive; pres
 @[aesop safe apply (rule_sets := [Pres])]
-theorem objStop_pres (L : Leaf I) (pid : Nat) : Pres I (objStop pid) := by
+theorem objStop_pres (L : LeafW I) (pid : Nat) : Pres I (objStop pid) := by
   unfold objStop; pres
 @[aesop safe apply (rule_sets := [Pres])]
-theorem sendSignal_pres (L : Leaf I) (u p sg : Nat) : Pres I (sendSignal u p sg) := by
+theorem sendSignal_pres (L : LeafW I) (u p sg : Nat) : Pres I (sendSignal u p sg) := by
   unfold sendSignal; pres
 @[aesop safe apply (rule_sets := [Pres])]
-theorem sendSignalChild_pres (L : Leaf I) (p c sg : Nat) : Pres I (sendSignalChild p c sg) := by
+theorem sendSignalChild_pres (L : LeafW I) (p c sg : Nat) : Pres I (sendSignalChild p c sg) := by
   unfold sendSignalChild; pres
 @[aesop safe apply (rule_sets := [Pres])]
-theorem sendSignalProcess_pres (L : Leaf I) (u p sg : Nat) (r : Bool) : Pres I (sendSignalProcess u p sg r) := by
+theorem sendSignalProcess_pres (L : LeafW I) (u p sg : Nat) (r : Bool) : Pres I (sendSignalProcess u p sg r) := by
   unfold sendSignalProcess; pres
 @[aesop safe apply (rule_sets := [Pres])]
-theorem activeProcs_pres (L : Leaf I) (u : Nat) : Pres I (activeProcs u) := by
+theorem activeProcs_pres (L : LeafW I) (u : Nat) : Pres I (activeProcs u) := by
   unfold activeProcs; pres
 @[aesop safe apply (rule_sets := [Pres])]
-theorem setBlocked_pres (L : Leaf I) : Pres I setBlocked := by
+theorem setBlocked_pres (L : LeafW I) : Pres I setBlocked := by
   unfold setBlocked; pres
 
 @[aesop safe apply (rule_sets := [Pres])]
-theorem reapWait_pres (L : Leaf I) (pid fuel : Nat) : Pres I (reapWait pid fuel) := by
+theorem reapWait_pres (L : LeafW I) (pid fuel : Nat) : Pres I (reapWait pid fuel) := by
   induction fuel with
   | zero => unfold reapWait; pres
-  | succ n ih => unfold reapWait; aesop (add safe apply ih) (rule_sets := [Pres]) (config := { terminal := true, useDefaultSimpSet := false, useSimpAll := false })
+  | succ n ih => unfold reapWait; aesop (add safe apply ih) (rule_sets := [Pres]) (config := { terminal := true, useDefaultSimpSet := false, useSimpAll := false, maxRuleApplications := 3000 })
 @[aesop safe apply (rule_sets := [Pres])]
-theorem reapProcess_pres (L : Leaf I) (u p : Nat) (st : Option Nat) : Pres I (reapProcess u p st) := by
+theorem reapProcess_pres (L : LeafW I) (u p : Nat) (st : Option Nat) : Pres I (reapProcess u p st) := by
   unfold reapProcess; pres
 @[aesop safe apply (rule_sets := [Pres])]
-theorem reapProcesses_pres (L : Leaf I) (u : Nat) : Pres I (reapProcesses u) := by
+theorem reapProcesses_pres (L : LeafW I) (u : Nat) : Pres I (reapProcesses u) := by
   unfold reapProcesses; pres
 @[aesop safe apply (rule_sets := [Pres])]
-theorem usedWids_pres (L : Leaf I) (u : Nat) : Pres I (usedWids u) := by
+theorem usedWids_pres (L : LeafW I) (u : Nat) : Pres I (usedWids u) := by
   unfold usedWids; pres
 @[aesop safe apply (rule_sets := [Pres])]
-theorem arbReapLoop_pres (L : Leaf I) (pm : List (Nat × Nat)) (fuel : Nat) : Pres I (arbReapLoop pm fuel) := by
+theorem arbReapLoop_pres (L : LeafW I) (pm : List (Nat × Nat)) (fuel : Nat) : Pres I (arbReapLoop pm fuel) := by
   induction fuel with
   | zero => unfold arbReapLoop; pres
-  | succ n ih => unfold arbReapLoop; aesop (add safe apply ih) (rule_sets := [Pres]) (config := { terminal := true, useDefaultSimpSet := false, useSimpAll := false })
+  | succ n ih => unfold arbReapLoop; aesop (add safe apply ih) (rule_sets := [Pres]) (config := { terminal := true, useDefaultSimpSet := false, useSimpAll := false, maxRuleApplications := 3000 })
 @[aesop safe apply (rule_sets := [Pres])]
-theorem registered_pres (L : Leaf I) : Pres I registered := by
+theorem registered_pres (L : LeafW I) : Pres I registered := by
   unfold registered; pres
 @[aesop safe apply (rule_sets := [Pres])]
-theorem iterWatchers_pres (L : Leaf I) (r : Bool) : Pres I (iterWatchers r) := by
+theorem iterWatchers_pres (L : LeafW I) (r : Bool) : Pres I (iterWatchers r) := by
   unfold iterWatchers; pres
 @[aesop safe apply (rule_sets := [Pres])]
-theorem arbReapProcesses_pres (L : Leaf I) : Pres I arbReapProcesses := by
+theorem arbReapProcesses_pres (L : LeafW I) : Pres I arbReapProcesses := by
   unfold arbReapProcesses; pres
 
 /-! ### Interp -/
@@ -162,19 +171,19 @@ theorem stopController_pres (L : Leaf I) : Pres I stopController := by
 @[aesop safe apply (rule_sets := [Pres])]
 theorem multiCollect_pres (L : Leaf I) (rec : Rec) (hrec : ∀ t, Pres I (rec t)) (f sl : Nat) (v : Val) :
     Pres I (multiCollect rec f sl v) := by
-  unfold multiCollect; aesop (add safe apply hrec) (rule_sets := [Pres]) (config := { terminal := true, useDefaultSimpSet := false, useSimpAll := false })
+  unfold multiCollect; aesop (add safe apply hrec) (rule_sets := [Pres]) (config := { terminal := true, useDefaultSimpSet := false, useSimpAll := false, maxRuleApplications := 3000 })
 
 @[aesop safe apply (rule_sets := [Pres])]
 theorem deliver_pres (S : Spec I) (rec : Rec) (hrec : ∀ t, Pres I (rec t)) (w : Waiter) (v : Val) :
     Pres I (deliver rec w v) := by
   have L := S.toLeaf
-  unfold deliver; aesop (add safe apply hrec) (rule_sets := [Pres]) (config := { terminal := true, useDefaultSimpSet := false, useSimpAll := false })
+  unfold deliver; aesop (add safe apply hrec) (rule_sets := [Pres]) (config := { terminal := true, useDefaultSimpSet := false, useSimpAll := false, maxRuleApplications := 3000 })
 
 @[aesop safe apply (rule_sets := [Pres])]
 theorem await_pres (S : Spec I) (rec : Rec) (hrec : ∀ t, Pres I (rec t)) (c : Call) (k : Kont) (p : Waiter) :
     Pres I (await rec c k p) := by
   have L := S.toLeaf
-  unfold await; aesop (add safe apply hrec) (rule_sets := [Pres]) (config := { terminal := true, useDefaultSimpSet := false, useSimpAll := false })
+  unfold await; aesop (add safe apply hrec) (rule_sets := [Pres]) (config := { terminal := true, useDefaultSimpSet := false, useSimpAll := false, maxRuleApplications := 3000 })
 @[aesop safe apply (rule_sets := [Pres])]
 theorem awaitSleep_pres (L : Leaf I) (ms : Nat) (k : Kont) (p : Waiter) : Pres I (awaitSleep ms k p) := by
   unfold awaitSleep; pres
@@ -182,7 +191,7 @@ theorem awaitSleep_pres (L : Leaf I) (ms : Nat) (k : Kont) (p : Waiter) : Pres I
 theorem awaitMulti_pres (S : Spec I) (rec : Rec) (hrec : ∀ t, Pres I (rec t)) (cs : List Call) (k : Kont) (p : Waiter) :
     Pres I (awaitMulti rec cs k p) := by
   have L := S.toLeaf
-  unfold awaitMulti; aesop (add safe apply hrec) (rule_sets := [Pres]) (config := { terminal := true, useDefaultSimpSet := false, useSimpAll := false })
+  unfold awaitMulti; aesop (add safe apply hrec) (rule_sets := [Pres]) (config := { terminal := true, useDefaultSimpSet := false, useSimpAll := false, maxRuleApplications := 3000 })
 
 /-! ### coroutine bodies (open recursion through `rec`) -/
 @[aesop safe apply (rule_sets := [Pres])]
@@ -200,146 +209,146 @@ theorem spawnTry_pres (S : Spec I) (rec : Rec) (hrec : ∀ t, Pres I (rec t)) (w
   | succ n ih =>
     unfold spawnTry
     have hnew : ∀ pid, Pres I (newTop [TopCb.popProc wuid pid]) := fun pid => S.newTopNR _ (by simp)
-    aesop (add safe apply ih, safe apply hrec, safe apply hnew) (rule_sets := [Pres]) (config := { terminal := true, useDefaultSimpSet := false, useSimpAll := false })
+    aesop (add safe apply ih, safe apply hrec, safe apply hnew) (rule_sets := [Pres]) (config := { terminal := true, useDefaultSimpSet := false, useSimpAll := false, maxRuleApplications := 3000 })
 @[aesop safe apply (rule_sets := [Pres])]
 theorem killFinish_pres (S : Spec I) (rec : Rec) (hrec : ∀ t, Pres I (rec t)) (wuid pid : Nat) (esc : Bool) (wt : Waiter) : Pres I (killFinish rec wuid pid esc wt) := by
   have L := S.toLeaf
-  unfold killFinish; aesop (add safe apply hrec) (rule_sets := [Pres]) (config := { terminal := true, useDefaultSimpSet := false, useSimpAll := false })
+  unfold killFinish; aesop (add safe apply hrec) (rule_sets := [Pres]) (config := { terminal := true, useDefaultSimpSet := false, useSimpAll := false, maxRuleApplications := 3000 })
 @[aesop safe apply (rule_sets := [Pres])]
 theorem killLoop_pres (S : Spec I) (rec : Rec) (hrec : ∀ t, Pres I (rec t)) (wuid pid sig i polls : Nat) (wt : Waiter) : Pres I (killLoop rec wuid pid sig i polls wt) := by
   have L := S.toLeaf
-  unfold killLoop; aesop (add safe apply hrec) (rule_sets := [Pres]) (config := { terminal := true, useDefaultSimpSet := false, useSimpAll := false })
+  unfold killLoop; aesop (add safe apply hrec) (rule_sets := [Pres]) (config := { terminal := true, useDefaultSimpSet := false, useSimpAll := false, maxRuleApplications := 3000 })
 @[aesop safe apply (rule_sets := [Pres])]
 theorem killProcess_pres (S : Spec I) (rec : Rec) (hrec : ∀ t, Pres I (rec t)) (wuid pid : Nat) (sig gt : Option Nat) (wt : Waiter) : Pres I (killProcess rec wuid pid sig gt wt) := by
   have L := S.toLeaf
-  unfold killProcess; aesop (add safe apply hrec) (rule_sets := [Pres]) (config := { terminal := true, useDefaultSimpSet := false, useSimpAll := false })
+  unfold killProcess; aesop (add safe apply hrec) (rule_sets := [Pres]) (config := { terminal := true, useDefaultSimpSet := false, useSimpAll := false, maxRuleApplications := 3000 })
 @[aesop safe apply (rule_sets := [Pres])]
 theorem killProcesses_pres (S : Spec I) (rec : Rec) (hrec : ∀ t, Pres I (rec t)) (wuid : Nat) (sig gt : Option Nat) (wt : Waiter) : Pres I (killProcesses rec wuid sig gt wt) := by
   have L := S.toLeaf
-  unfold killProcesses; aesop (add safe apply hrec) (rule_sets := [Pres]) (config := { terminal := true, useDefaultSimpSet := false, useSimpAll := false })
+  unfold killProcesses; aesop (add safe apply hrec) (rule_sets := [Pres]) (config := { terminal := true, useDefaultSimpSet := false, useSimpAll := false, maxRuleApplications := 3000 })
 @[aesop safe apply (rule_sets := [Pres])]
 theorem stopW_pres (S : Spec I) (rec : Rec) (hrec : ∀ t, Pres I (rec t)) (wuid : Nat) (close : Bool) (wt : Waiter) : Pres I (stopW rec wuid close wt) := by
   have L := S.toLeaf
-  unfold stopW; aesop (add safe apply hrec) (rule_sets := [Pres]) (config := { terminal := true, useDefaultSimpSet := false, useSimpAll := false })
+  unfold stopW; aesop (add safe apply hrec) (rule_sets := [Pres]) (config := { terminal := true, useDefaultSimpSet := false, useSimpAll := false, maxRuleApplications := 3000 })
 @[aesop safe apply (rule_sets := [Pres])]
 theorem stopAfterKill_pres (S : Spec I) (rec : Rec) (hrec : ∀ t, Pres I (rec t)) (wuid : Nat) (close : Bool) (wt : Waiter) : Pres I (stopAfterKill rec wuid close wt) := by
   have L := S.toLeaf
-  unfold stopAfterKill; aesop (add safe apply hrec) (rule_sets := [Pres]) (config := { terminal := true, useDefaultSimpSet := false, useSimpAll := false })
+  unfold stopAfterKill; aesop (add safe apply hrec) (rule_sets := [Pres]) (config := { terminal := true, useDefaultSimpSet := false, useSimpAll := false, maxRuleApplications := 3000 })
 @[aesop safe apply (rule_sets := [Pres])]
 theorem spawnProcess_pres (S : Spec I) (rec : Rec) (hrec : ∀ t, Pres I (rec t)) (wuid : Nat) : Pres I (spawnProcess rec wuid) := by
   have L := S.toLeaf
-  unfold spawnProcess; aesop (add safe apply hrec) (rule_sets := [Pres]) (config := { terminal := true, useDefaultSimpSet := false, useSimpAll := false })
+  unfold spawnProcess; aesop (add safe apply hrec) (rule_sets := [Pres]) (config := { terminal := true, useDefaultSimpSet := false, useSimpAll := false, maxRuleApplications := 3000 })
 @[aesop safe apply (rule_sets := [Pres])]
 theorem spawnLoop_pres (S : Spec I) (rec : Rec) (hrec : ∀ t, Pres I (rec t)) (wuid rem : Nat) (wt : Waiter) : Pres I (spawnLoop rec wuid rem wt) := by
   have L := S.toLeaf
-  unfold spawnLoop; aesop (add safe apply hrec) (rule_sets := [Pres]) (config := { terminal := true, useDefaultSimpSet := false, useSimpAll := false })
+  unfold spawnLoop; aesop (add safe apply hrec) (rule_sets := [Pres]) (config := { terminal := true, useDefaultSimpSet := false, useSimpAll := false, maxRuleApplications := 3000 })
 @[aesop safe apply (rule_sets := [Pres])]
 theorem spawnProcesses_pres (S : Spec I) (rec : Rec) (hrec : ∀ t, Pres I (rec t)) (wuid : Nat) (wt : Waiter) : Pres I (spawnProcesses rec wuid wt) := by
   have L := S.toLeaf
-  unfold spawnProcesses; aesop (add safe apply hrec) (rule_sets := [Pres]) (config := { terminal := true, useDefaultSimpSet := false, useSimpAll := false })
+  unfold spawnProcesses; aesop (add safe apply hrec) (rule_sets := [Pres]) (config := { terminal := true, useDefaultSimpSet := false, useSimpAll := false, maxRuleApplications := 3000 })
 @[aesop safe apply (rule_sets := [Pres])]
 theorem popKilled_pres (S : Spec I) (rec : Rec) (hrec : ∀ t, Pres I (rec t)) (wuid : Nat) (tk : List Nat) (v : Val) (wt : Waiter) : Pres I (popKilled rec wuid tk v wt) := by
   have L := S.toLeaf
-  unfold popKilled; aesop (add safe apply hrec) (rule_sets := [Pres]) (config := { terminal := true, useDefaultSimpSet := false, useSimpAll := false })
+  unfold popKilled; aesop (add safe apply hrec) (rule_sets := [Pres]) (config := { terminal := true, useDefaultSimpSet := false, useSimpAll := false, maxRuleApplications := 3000 })
 @[aesop safe apply (rule_sets := [Pres])]
 theorem manageTail_pres (S : Spec I) (rec : Rec) (hrec : ∀ t, Pres I (rec t)) (wuid : Nat) (wt : Waiter) : Pres I (manageTail rec wuid wt) := by
   have L := S.toLeaf
-  unfold manageTail; aesop (add safe apply hrec) (rule_sets := [Pres]) (config := { terminal := true, useDefaultSimpSet := false, useSimpAll := false })
+  unfold manageTail; aesop (add safe apply hrec) (rule_sets := [Pres]) (config := { terminal := true, useDefaultSimpSet := false, useSimpAll := false, maxRuleApplications := 3000 })
 @[aesop safe apply (rule_sets := [Pres])]
 theorem manageAfterExpire_pres (S : Spec I) (rec : Rec) (hrec : ∀ t, Pres I (rec t)) (wuid : Nat) (wt : Waiter) : Pres I (manageAfterExpire rec wuid wt) := by
   have L := S.toLeaf
-  unfold manageAfterExpire; aesop (add safe apply hrec) (rule_sets := [Pres]) (config := { terminal := true, useDefaultSimpSet := false, useSimpAll := false })
+  unfold manageAfterExpire; aesop (add safe apply hrec) (rule_sets := [Pres]) (config := { terminal := true, useDefaultSimpSet := false, useSimpAll := false, maxRuleApplications := 3000 })
 @[aesop safe apply (rule_sets := [Pres])]
 theorem removeExpired_pres (S : Spec I) (rec : Rec) (hrec : ∀ t, Pres I (rec t)) (wuid : Nat) (wt : Waiter) : Pres I (removeExpired rec wuid wt) := by
   have L := S.toLeaf
-  unfold removeExpired; aesop (add safe apply hrec) (rule_sets := [Pres]) (config := { terminal := true, useDefaultSimpSet := false, useSimpAll := false })
+  unfold removeExpired; aesop (add safe apply hrec) (rule_sets := [Pres]) (config := { terminal := true, useDefaultSimpSet := false, useSimpAll := false, maxRuleApplications := 3000 })
 @[aesop safe apply (rule_sets := [Pres])]
 theorem manageProcesses_pres (S : Spec I) (rec : Rec) (hrec : ∀ t, Pres I (rec t)) (wuid : Nat) (wt : Waiter) : Pres I (manageProcesses rec wuid wt) := by
   have L := S.toLeaf
-  unfold manageProcesses; aesop (add safe apply hrec) (rule_sets := [Pres]) (config := { terminal := true, useDefaultSimpSet := false, useSimpAll := false })
+  unfold manageProcesses; aesop (add safe apply hrec) (rule_sets := [Pres]) (config := { terminal := true, useDefaultSimpSet := false, useSimpAll := false, maxRuleApplications := 3000 })
 @[aesop safe apply (rule_sets := [Pres])]
 theorem startW_pres (S : Spec I) (rec : Rec) (hrec : ∀ t, Pres I (rec t)) (wuid : Nat) (wt : Waiter) : Pres I (startW rec wuid wt) := by
   have L := S.toLeaf
-  unfold startW; aesop (add safe apply hrec) (rule_sets := [Pres]) (config := { terminal := true, useDefaultSimpSet := false, useSimpAll := false })
+  unfold startW; aesop (add safe apply hrec) (rule_sets := [Pres]) (config := { terminal := true, useDefaultSimpSet := false, useSimpAll := false, maxRuleApplications := 3000 })
 @[aesop safe apply (rule_sets := [Pres])]
 theorem startAfterSpawn_pres (S : Spec I) (rec : Rec) (hrec : ∀ t, Pres I (rec t)) (wuid : Nat) (wt : Waiter) : Pres I (startAfterSpawn rec wuid wt) := by
   have L := S.toLeaf
-  unfold startAfterSpawn; aesop (add safe apply hrec) (rule_sets := [Pres]) (config := { terminal := true, useDefaultSimpSet := false, useSimpAll := false })
+  unfold startAfterSpawn; aesop (add safe apply hrec) (rule_sets := [Pres]) (config := { terminal := true, useDefaultSimpSet := false, useSimpAll := false, maxRuleApplications := 3000 })
 @[aesop safe apply (rule_sets := [Pres])]
 theorem reloadW_pres (S : Spec I) (rec : Rec) (hrec : ∀ t, Pres I (rec t)) (wuid : Nat) (g sq : Bool) (wt : Waiter) : Pres I (reloadW rec wuid g sq wt) := by
   have L := S.toLeaf
-  unfold reloadW; aesop (add safe apply hrec) (rule_sets := [Pres]) (config := { terminal := true, useDefaultSimpSet := false, useSimpAll := false })
+  unfold reloadW; aesop (add safe apply hrec) (rule_sets := [Pres]) (config := { terminal := true, useDefaultSimpSet := false, useSimpAll := false, maxRuleApplications := 3000 })
 @[aesop safe apply (rule_sets := [Pres])]
 theorem reloadSeqNext_pres (S : Spec I) (rec : Rec) (hrec : ∀ t, Pres I (rec t)) (wuid : Nat) (rest : List Nat) (wt : Waiter) : Pres I (reloadSeqNext rec wuid rest wt) := by
   have L := S.toLeaf
-  unfold reloadSeqNext; aesop (add safe apply hrec) (rule_sets := [Pres]) (config := { terminal := true, useDefaultSimpSet := false, useSimpAll := false })
+  unfold reloadSeqNext; aesop (add safe apply hrec) (rule_sets := [Pres]) (config := { terminal := true, useDefaultSimpSet := false, useSimpAll := false, maxRuleApplications := 3000 })
 @[aesop safe apply (rule_sets := [Pres])]
 theorem reloadSeqAfterKill_pres (S : Spec I) (rec : Rec) (hrec : ∀ t, Pres I (rec t)) (wuid pid : Nat) (rest : List Nat) (wt : Waiter) : Pres I (reloadSeqAfterKill rec wuid pid rest wt) := by
   have L := S.toLeaf
-  unfold reloadSeqAfterKill; aesop (add safe apply hrec) (rule_sets := [Pres]) (config := { terminal := true, useDefaultSimpSet := false, useSimpAll := false })
+  unfold reloadSeqAfterKill; aesop (add safe apply hrec) (rule_sets := [Pres]) (config := { terminal := true, useDefaultSimpSet := false, useSimpAll := false, maxRuleApplications := 3000 })
 @[aesop safe apply (rule_sets := [Pres])]
 theorem setNumprocesses_pres (S : Spec I) (rec : Rec) (hrec : ∀ t, Pres I (rec t)) (wuid : Nat) (n : Int) (wt : Waiter) : Pres I (setNumprocesses rec wuid n wt) := by
   have L := S.toLeaf
-  unfold setNumprocesses; aesop (add safe apply hrec) (rule_sets := [Pres]) (config := { terminal := true, useDefaultSimpSet := false, useSimpAll := false })
+  unfold setNumprocesses; aesop (add safe apply hrec) (rule_sets := [Pres]) (config := { terminal := true, useDefaultSimpSet := false, useSimpAll := false, maxRuleApplications := 3000 })
 @[aesop safe apply (rule_sets := [Pres])]
 theorem doAction_pres (S : Spec I) (rec : Rec) (hrec : ∀ t, Pres I (rec t)) (wuid : Nat) (n : Int) (wt : Waiter) : Pres I (doAction rec wuid n wt) := by
   have L := S.toLeaf
-  unfold doAction; aesop (add safe apply hrec) (rule_sets := [Pres]) (config := { terminal := true, useDefaultSimpSet := false, useSimpAll := false })
+  unfold doAction; aesop (add safe apply hrec) (rule_sets := [Pres]) (config := { terminal := true, useDefaultSimpSet := false, useSimpAll := false, maxRuleApplications := 3000 })
 @[aesop safe apply (rule_sets := [Pres])]
 theorem pubInfo_pres (S : Spec I) (rec : Rec) (hrec : ∀ t, Pres I (rec t)) (wuid : Nat) (b : List Nat) (wt : Waiter) : Pres I (pubInfo rec wuid b wt) := by
   have L := S.toLeaf
-  unfold pubInfo; aesop (add safe apply hrec) (rule_sets := [Pres]) (config := { terminal := true, useDefaultSimpSet := false, useSimpAll := false })
+  unfold pubInfo; aesop (add safe apply hrec) (rule_sets := [Pres]) (config := { terminal := true, useDefaultSimpSet := false, useSimpAll := false, maxRuleApplications := 3000 })
 @[aesop safe apply (rule_sets := [Pres])]
 theorem arbStartNext_pres (S : Spec I) (rec : Rec) (hrec : ∀ t, Pres I (rec t)) (ws : List Nat) (wt : Waiter) : Pres I (arbStartNext rec ws wt) := by
   have L := S.toLeaf
-  unfold arbStartNext; aesop (add safe apply hrec) (rule_sets := [Pres]) (config := { terminal := true, useDefaultSimpSet := false, useSimpAll := false })
+  unfold arbStartNext; aesop (add safe apply hrec) (rule_sets := [Pres]) (config := { terminal := true, useDefaultSimpSet := false, useSimpAll := false, maxRuleApplications := 3000 })
 @[aesop safe apply (rule_sets := [Pres])]
 theorem arbStartAfterStart_pres (S : Spec I) (rec : Rec) (hrec : ∀ t, Pres I (rec t)) (ws : List Nat) (wt : Waiter) : Pres I (arbStartAfterStart rec ws wt) := by
   have L := S.toLeaf
-  unfold arbStartAfterStart; aesop (add safe apply hrec) (rule_sets := [Pres]) (config := { terminal := true, useDefaultSimpSet := false, useSimpAll := false })
+  unfold arbStartAfterStart; aesop (add safe apply hrec) (rule_sets := [Pres]) (config := { terminal := true, useDefaultSimpSet := false, useSimpAll := false, maxRuleApplications := 3000 })
 @[aesop safe apply (rule_sets := [Pres])]
 theorem arbStopTail_pres (S : Spec I) (rec : Rec) (hrec : ∀ t, Pres I (rec t)) (wt : Waiter) : Pres I (arbStopTail rec wt) := by
   have L := S.toLeaf
-  unfold arbStopTail; aesop (add safe apply hrec) (rule_sets := [Pres]) (config := { terminal := true, useDefaultSimpSet := false, useSimpAll := false })
+  unfold arbStopTail; aesop (add safe apply hrec) (rule_sets := [Pres]) (config := { terminal := true, useDefaultSimpSet := false, useSimpAll := false, maxRuleApplications := 3000 })
 @[aesop safe apply (rule_sets := [Pres])]
 theorem arbStop_pres (S : Spec I) (rec : Rec) (hrec : ∀ t, Pres I (rec t)) (wt : Waiter) : Pres I (arbStop rec wt) := by
   have L := S.toLeaf
-  unfold arbStop; aesop (add safe apply hrec) (rule_sets := [Pres]) (config := { terminal := true, useDefaultSimpSet := false, useSimpAll := false })
+  unfold arbStop; aesop (add safe apply hrec) (rule_sets := [Pres]) (config := { terminal := true, useDefaultSimpSet := false, useSimpAll := false, maxRuleApplications := 3000 })
 @[aesop safe apply (rule_sets := [Pres])]
 theorem arbRestartInside_pres (S : Spec I) (rec : Rec) (hrec : ∀ t, Pres I (rec t)) (wt : Waiter) : Pres I (arbRestartInside rec wt) := by
   have L := S.toLeaf
-  unfold arbRestartInside; aesop (add safe apply hrec) (rule_sets := [Pres]) (config := { terminal := true, useDefaultSimpSet := false, useSimpAll := false })
+  unfold arbRestartInside; aesop (add safe apply hrec) (rule_sets := [Pres]) (config := { terminal := true, useDefaultSimpSet := false, useSimpAll := false, maxRuleApplications := 3000 })
 @[aesop safe apply (rule_sets := [Pres])]
 theorem arbReloadNext_pres (S : Spec I) (rec : Rec) (hrec : ∀ t, Pres I (rec t)) (ws : List Nat) (g sq : Bool) (wt : Waiter) : Pres I (arbReloadNext rec ws g sq wt) := by
   have L := S.toLeaf
-  unfold arbReloadNext; aesop (add safe apply hrec) (rule_sets := [Pres]) (config := { terminal := true, useDefaultSimpSet := false, useSimpAll := false })
+  unfold arbReloadNext; aesop (add safe apply hrec) (rule_sets := [Pres]) (config := { terminal := true, useDefaultSimpSet := false, useSimpAll := false, maxRuleApplications := 3000 })
 @[aesop safe apply (rule_sets := [Pres])]
 theorem arbReloadAfter_pres (S : Spec I) (rec : Rec) (hrec : ∀ t, Pres I (rec t)) (ws : List Nat) (g sq : Bool) (wt : Waiter) : Pres I (arbReloadAfter rec ws g sq wt) := by
   have L := S.toLeaf
-  unfold arbReloadAfter; aesop (add safe apply hrec) (rule_sets := [Pres]) (config := { terminal := true, useDefaultSimpSet := false, useSimpAll := false })
+  unfold arbReloadAfter; aesop (add safe apply hrec) (rule_sets := [Pres]) (config := { terminal := true, useDefaultSimpSet := false, useSimpAll := false, maxRuleApplications := 3000 })
 @[aesop safe apply (rule_sets := [Pres])]
 theorem manageWatchers_pres (S : Spec I) (rec : Rec) (hrec : ∀ t, Pres I (rec t)) (wt : Waiter) : Pres I (manageWatchers rec wt) := by
   have L := S.toLeaf
-  unfold manageWatchers; aesop (add safe apply hrec) (rule_sets := [Pres]) (config := { terminal := true, useDefaultSimpSet := false, useSimpAll := false })
+  unfold manageWatchers; aesop (add safe apply hrec) (rule_sets := [Pres]) (config := { terminal := true, useDefaultSimpSet := false, useSimpAll := false, maxRuleApplications := 3000 })
 @[aesop safe apply (rule_sets := [Pres])]
 theorem rmWatcher_pres (S : Spec I) (rec : Rec) (hrec : ∀ t, Pres I (rec t)) (uid : Nat) (ns : Bool) (wt : Waiter) : Pres I (rmWatcher rec uid ns wt) := by
   have L := S.toLeaf
-  unfold rmWatcher; aesop (add safe apply hrec) (rule_sets := [Pres]) (config := { terminal := true, useDefaultSimpSet := false, useSimpAll := false })
+  unfold rmWatcher; aesop (add safe apply hrec) (rule_sets := [Pres]) (config := { terminal := true, useDefaultSimpSet := false, useSimpAll := false, maxRuleApplications := 3000 })
 @[aesop safe apply (rule_sets := [Pres])]
 theorem runCall_pres (S : Spec I) (rec : Rec) (hrec : ∀ t, Pres I (rec t)) (c : Call) (wt : Waiter) : Pres I (runCall rec c wt) := by
   have L := S.toLeaf
-  unfold runCall; aesop (add safe apply hrec) (rule_sets := [Pres]) (config := { terminal := true, useDefaultSimpSet := false, useSimpAll := false })
+  unfold runCall; aesop (add safe apply hrec) (rule_sets := [Pres]) (config := { terminal := true, useDefaultSimpSet := false, useSimpAll := false, maxRuleApplications := 3000 })
 @[aesop safe apply (rule_sets := [Pres])]
 theorem runResume_pres (S : Spec I) (rec : Rec) (hrec : ∀ t, Pres I (rec t)) (k : Kont) (v : Val) (wt : Waiter) : Pres I (runResume rec k v wt) := by
   have L := S.toLeaf
-  unfold runResume; aesop (add safe apply hrec) (rule_sets := [Pres]) (config := { terminal := true, useDefaultSimpSet := false, useSimpAll := false })
+  unfold runResume; aesop (add safe apply hrec) (rule_sets := [Pres]) (config := { terminal := true, useDefaultSimpSet := false, useSimpAll := false, maxRuleApplications := 3000 })
 theorem exec_pres (S : Spec I) (n : Nat) (t : Task) : Pres I (exec n t) := by
   have L := S.toLeaf
   induction n generalizing t with
   | zero => unfold exec; pres
   | succ n ih =>
     unfold exec
-    aesop (add safe apply ih) (rule_sets := [Pres]) (config := { terminal := true, useDefaultSimpSet := false, useSimpAll := false })
+    aesop (add safe apply ih) (rule_sets := [Pres]) (config := { terminal := true, useDefaultSimpSet := false, useSimpAll := false, maxRuleApplications := 3000 })
 /-! ### dispatch and commands -/
 @[aesop safe apply (rule_sets := [Pres])]
 theorem lookupWatcher_pres (L : Leaf I) (n : String) : Pres I (lookupWatcher n) := by
@@ -359,7 +368,7 @@ theorem plainCoroutine_pres (S : Spec I) (c : Call) : Pres I (plainCoroutine c [
   have h1 : Pres I (newTop ([] : List TopCb)) := S.newTopNR _ (by simp)
   have h2 := exec_pres S
   unfold plainCoroutine
-  aesop (add safe apply h1, safe apply h2) (rule_sets := [Pres]) (config := { terminal := true, useDefaultSimpSet := false, useSimpAll := false })
+  aesop (add safe apply h1, safe apply h2) (rule_sets := [Pres]) (config := { terminal := true, useDefaultSimpSet := false, useSimpAll := false, maxRuleApplications := 3000 })
 @[aesop safe apply (rule_sets := [Pres])]
 theorem syncCoroutine_pres (S : Spec I) (name : String) (c : Call) : Pres I (syncCoroutine name c []) :=
   S.syncCo (exec_pres S) name c
@@ -409,7 +418,7 @@ theorem handleMessage_pres (S : Spec I) (cid : Option String) (msg : Option JVal
   have hadd : ∀ tid a b c d e f, Pres I (addDoneCallback tid (TopCb.reply a b c d e f)) :=
     fun tid a b c d e f => S.addDone _ _ (by simp)
   unfold handleMessage
-  aesop (add safe apply hadd) (rule_sets := [Pres]) (config := { terminal := true, useDefaultSimpSet := false, useSimpAll := false })
+  aesop (add safe apply hadd) (rule_sets := [Pres]) (config := { terminal := true, useDefaultSimpSet := false, useSimpAll := false, maxRuleApplications := 3000 })
 @[aesop safe apply (rule_sets := [Pres])]
 theorem sigQuit_pres (S : Spec I) : Pres I sigQuit := by
   have L := S.toLeaf
@@ -421,27 +430,27 @@ theorem settle_pres (S : Spec I) (n : Nat) : Pres I (settle n) := by
   | zero => unfold settle; pres
   | succ n ih =>
     unfold settle
-    aesop (add safe apply ih, safe apply hs) (rule_sets := [Pres]) (config := { terminal := true, useDefaultSimpSet := false, useSimpAll := false })
+    aesop (add safe apply ih, safe apply hs) (rule_sets := [Pres]) (config := { terminal := true, useDefaultSimpSet := false, useSimpAll := false, maxRuleApplications := 3000 })
 theorem stepOp_pres (S : Spec I) (op : Op) : Pres I (stepOp op) := by
   have L := S.toLeaf
   have hadd : ∀ tid, Pres I (addDoneCallback tid TopCb.watch) := fun tid => S.addDone _ _ (by simp)
   have he := exec_pres S
   cases op <;> simp only [stepOp] <;>
   aesop (add safe apply hadd, safe apply he) (rule_sets := [Pres])
-    (config := { terminal := true, useDefaultSimpSet := false, useSimpAll := false })
+    (config := { terminal := true, useDefaultSimpSet := false, useSimpAll := false, maxRuleApplications := 3000 })
 theorem stepTail_pres (S : Spec I) : Pres I stepTail := by
   have L := S.toLeaf
   have hst := settle_pres S
   unfold stepTail
   aesop (add safe apply hst) (rule_sets := [Pres])
-    (config := { terminal := true, useDefaultSimpSet := false, useSimpAll := false })
+    (config := { terminal := true, useDefaultSimpSet := false, useSimpAll := false, maxRuleApplications := 3000 })
 theorem stepM_pres (S : Spec I) (op : Op) : Pres I (stepM op) := by
   have L := S.toLeaf
   have h1 := stepOp_pres S
   have h2 := stepTail_pres S
   unfold stepM
   aesop (add safe apply h1, safe apply h2) (rule_sets := [Pres])
-    (config := { terminal := true, useDefaultSimpSet := false, useSimpAll := false })
+    (config := { terminal := true, useDefaultSimpSet := false, useSimpAll := false, maxRuleApplications := 3000 })
 
 /-- an invariant with a `Spec` holds along every run -/
 theorem run_pres (S : Spec I) (s : State) (ops : List Op) (h : I s) : I (run s ops) := by
